@@ -476,10 +476,20 @@ def main():
     chk.cov['evaluations'] = paths
     chk.cov['distinct_nontrivial'] = paths
     chk.cov['exhaustive'] = True
+    from . import extras7
+    for fn_ in ('model_processor_failure_with_user_repository',):
+        for pr in getattr(extras7, fn_)()[:2]:
+            chk.violation(pr, {'extras7': fn_})
+        chk.cov['traces_validated_against_impl'] += 1
+    chk.cov.setdefault('bounds', {})['concrete_supplements_round7'] = ['model_processor_failure_with_user_repository']
     return chk.finish('one run per (failing file, failure kind, provider, global repository, prior load)')
 
 
 def replay(data):
+    if isinstance(data, dict) and data.get('extras7'):
+        from . import extras7
+        pr = getattr(extras7, data['extras7'])()
+        return bool(pr), pr[:2]
     if 'caller_repository' in data:
         pr = caller_repository_scenario(*data['caller_repository'])
         return bool(pr), pr
